@@ -57,6 +57,13 @@ def describe(seed, n):
                     f.write_example(values={a.name: np.zeros(a.shape, a.dtype) for a in attrs}, split="train", custom_metadata=shard_meta)
             fresh = Dataset(ds.path)
             problems = []
+            raw = json.loads((Path(ds.path) / "dataset_info.json").read_text())
+            if raw.get("metadata", {}).get("sedpack_version") != sedpack.__version__:
+                problems.append(f"dataset_info.json does not record the version it was written by (found {raw.get('metadata', {}).get('sedpack_version')!r}): "
+                                "another release cannot apply the version gate")
+            for key in ("dataset_structure", "metadata", "splits"):
+                if key not in raw:
+                    problems.append(f"dataset_info.json has no entry {key!r}")
             if fresh.metadata.model_dump() != md.model_dump():
                 problems.append("metadata differs after reopen")
             if fresh.dataset_structure.model_dump() != st.model_dump():
@@ -105,7 +112,7 @@ def relocate(jobs):
             targets = [("nested", tmp / "a" / "b" / "c" / "ds", "abs"), ("unicode", tmp / "přesun 日本" / "ds", "abs"), ("blank", tmp / "my data set" / "the ds", "abs"),
                        # names that are not in Unicode normal form C (decomposed accent, ANGSTROM SIGN, conjoining jamo), a trailing dot, a leading dash
                        ("non_nfc", tmp / "cafe\u0301 \u212b \u1112\u1161\u11ab" / "ds", "abs"), ("odd_names", tmp / "-x y." / "ds.", "abs"),
-                       ("relative", tmp / "work" / "sub" / "ds", "rel"), ("dotdot", tmp / "sib" / "ds", "dotdot"), ("moved", tmp / "moved" / "ds", "move")]
+                       ("relative", tmp / "work" / "sub" / "ds", "rel"), ("relative_then_chdir", tmp / "work2" / "sub" / "ds", "relcd"), ("dotdot", tmp / "sib" / "ds", "dotdot"), ("moved", tmp / "moved" / "ds", "move")]
             more = {"kind": "filler", "sub": [], "reopen": False, "ops": [["W", 0, None, True], ["W", 0, None, True], ["W", 1, None, True]]}
             # what continuing in the original gives
             ref_root = tmp / "ref" / "ds"
@@ -123,7 +130,7 @@ def relocate(jobs):
                 else:
                     shutil.copytree(root, dst)
                 try:
-                    if how == "rel":
+                    if how in ("rel", "relcd"):
                         os.chdir(dst.parent.parent)
                         handle_path = Path("sub") / "ds"
                     elif how == "dotdot":
@@ -133,11 +140,17 @@ def relocate(jobs):
                     else:
                         handle_path = dst
                     ds = Dataset(handle_path)
+                    ds_w = Dataset(str(handle_path))
+                    if how == "relcd":
+                        # the handles were opened through a relative path; the process then changes its working directory
+                        # (to a place where the same relative path names something else) and only then uses them
+                        decoy = tmp / "decoy"
+                        (decoy / "sub").mkdir(parents=True, exist_ok=True)
+                        os.chdir(decoy)
                     before = canon(H.dump(ds, dst, None))
-                    ds = Dataset(str(handle_path))
-                    with H.DatasetFiller(ds) as f:
+                    with H.DatasetFiller(ds_w) as f:
                         H.apply_ops(f, more["ops"], 5000)
-                    after = canon(H.dump(Dataset(handle_path), dst, ds))
+                    after = canon(H.dump(Dataset(dst), dst, ds_w))
                     cases.append({"target": name, "same_before": before == base, "same_after": after == ref_after,
                                   "problems": (before.get("problems") or []) + (after.get("problems") or []), "error": None,
                                   "diff": None if after == ref_after else json.dumps(after)[:300]})
